@@ -49,11 +49,20 @@ def _decode_escape_sequence(  # noqa: PLR0911
     if ch == "t":
         return "\t", index
     if ch == "x":
-        # TODO: handle incomplete \x escape sequence
-        return chr(int(value[index + 1 : index + 3], 16)), index + 3
+        digits = value[index + 1 : index + 3]
+        if len(digits) != 2:  # noqa: PLR2004
+            raise PestGrammarSyntaxError(
+                "expected two hexadecimal digits after \\x", token=token
+            )
+        return chr(_parse_hex_digits(digits, token)), index + 2
     if ch == "u":
         codepoint, index = _decode_hex_char(value, index, token)
-        return chr(codepoint), index
+        try:
+            return chr(codepoint), index
+        except ValueError as err:
+            raise PestGrammarSyntaxError(
+                "invalid Unicode code point", token=token
+            ) from err
 
     raise PestGrammarSyntaxError(
         f"unknown escape sequence at index {token.start + index - 1}",
@@ -65,9 +74,9 @@ def _decode_hex_char(value: str, index: int, token: Token) -> tuple[int, int]:
     # TODO: use a regular expression?
     index += 1  # move past 'u'
 
-    if value[index] != "{":
+    if value[index : index + 1] != "{":
         raise PestGrammarSyntaxError(
-            f"expected an opening brace, found {value[index]}",
+            f"expected an opening brace, found {value[index : index + 1]!r}",
             token=token,
         )
 
@@ -78,15 +87,14 @@ def _decode_hex_char(value: str, index: int, token: Token) -> tuple[int, int]:
         raise PestGrammarSyntaxError("unclosed Unicode escape sequence", token=token)
 
     hex_digit_length = closing_brace_index - index
-    if hex_digit_length not in (2, 4, 6):
+    if not 2 <= hex_digit_length <= 6:  # noqa: PLR2004
         raise PestGrammarSyntaxError(
-            "expected \\u{00}, \\u{0000} or \\u{000000}", token=token
+            "expected two to six hexadecimal digits in \\u{...}", token=token
         )
 
     codepoint = _parse_hex_digits(value[index : index + hex_digit_length], token)
-    index += hex_digit_length
-    index += 1  # move past '}'
-    return codepoint, index
+    # The index of the closing brace, the last character of the escape sequence.
+    return codepoint, closing_brace_index
 
 
 def _parse_hex_digits(digits: str, token: Token) -> int:
